@@ -94,6 +94,26 @@ def build(P):
                     "trace OUTPUTs; non-trivial = distinct program in which a loop body or branch trace ran (or a cube/shape case)")
 
     # ------------------------------------------------------------------ C04
+    def call_matrix():
+        """every (routine kind, passing mode, parameter type, argument form) combination: which calls bind, which are refused"""
+        out = []
+        vals = {"INTEGER": ("5", "6"), "REAL": ("2.5", "3.5"), "STRING": ('"st"', '"uv"'), "CHAR": ("'c'", "'d'"), "BOOLEAN": ("TRUE", "FALSE")}
+        one = {"STRING": '"q"'}
+        for kind in ("PROCEDURE", "FUNCTION"):
+            for mode in ("BYREF", "BYVAL", ""):
+                for pt in vals:
+                    for at in vals:
+                        for form in ("var", "lit", "paren", "expr", "elem", "field", "const"):
+                            if form != "var" and at != pt and not (form == "lit" and mode != "BYREF"): continue
+                            v1 = one.get(at, vals[at][0]) if (pt == "CHAR" and at == "STRING") else vals[at][0]
+                            L = ["DECLARE s : %s" % at, "s <- %s" % v1, "DECLARE arr : ARRAY[1:2] OF %s" % at, "arr[2] <- %s" % v1, "TYPE Rc\nDECLARE f : %s\nENDTYPE" % at, "DECLARE rc : Rc", "rc.f <- %s" % v1, "CONSTANT Kc = %s" % v1]
+                            head = "%s P(%s x : %s)" % (kind, mode, pt) + (" RETURNS INTEGER" if kind == "FUNCTION" else "")
+                            L += [head, "OUTPUT \"in \", x", "x <- %s" % vals[pt][1], "RETURN 1\nENDFUNCTION" if kind == "FUNCTION" else "ENDPROCEDURE"]
+                            arg = {"var": "s", "lit": v1, "paren": "(s)", "expr": {"INTEGER": "s + 0", "REAL": "s * 1.0", "STRING": "s & \"\"", "CHAR": "LCASE(s)", "BOOLEAN": "NOT s"}[at], "elem": "arr[2]", "field": "rc.f", "const": "Kc"}[form]
+                            L += ["OUTPUT \"before\"", ("OUTPUT P(%s)" if kind == "FUNCTION" else "CALL P(%s)") % arg, "OUTPUT \"after \", s, \" \", arr[2], \" \", rc.f, \" \", Kc"]
+                            out.append("\n".join(L))
+        return out
+
     def c04_cases(tier, seed):
         r = rng_for(seed, "C04")
         shapes = [
@@ -133,6 +153,7 @@ def build(P):
             "DECLARE a : ARRAY[1:3] OF INTEGER\nFUNCTION Nx() RETURNS INTEGER\nOUTPUT \"nx\"\nRETURN 2\nENDFUNCTION\nPROCEDURE P(BYREF e : INTEGER)\ne <- 9\nENDPROCEDURE\nCALL P(a[Nx()])\nOUTPUT a[2]",
         ]
         yield ("shapes", [Case(id="C04-shape-%d" % i, prog=(s + "\n").encode()) for i, s in enumerate(shapes)])
+        yield ("call-matrix", [Case(id="C04-call-%d" % i, prog=(s + "\n").encode(), meta=dict(units=["call/%d" % i])) for i, s in enumerate(call_matrix())])
         n = sizes(tier, 1200, 30000)
         cs = []
         for i in range(n):
@@ -141,8 +162,8 @@ def build(P):
         for ch in chunks(cs, 400):
             yield ("generator", ch)
 
-    C04 = dict(cases=c04_cases, model_is_oracle=("out", "exit", "files", "termination"), nontrivial=lambda c, r, m: b"proc " in r.out or b"fn " in r.out or c.id.startswith("C04-shape"),
-               rule="hand-built shapes for sticky BYREF/BYVAL and shared-type parameter lists, BYREF chains / elements / fields, recursion to depth 50, shadowing, "
+    C04 = dict(cases=c04_cases, model_is_oracle=("out", "exit", "files", "termination"), nontrivial=lambda c, r, m: b"proc " in r.out or b"fn " in r.out or c.id.startswith("C04-shape") or c.id.startswith("C04-call"),
+               rule="every (PROCEDURE/FUNCTION, BYREF/BYVAL/default, parameter type, argument type, argument form: variable, literal, parenthesised, computed, element, field, constant) call; hand-built shapes for sticky BYREF/BYVAL and shared-type parameter lists, BYREF chains / elements / fields, recursion to depth 50, shadowing, "
                     "call errors; typed generator with up to 4 procedures/functions whose bodies and call sites are random; caller state dumped at the end; "
                     "non-trivial = distinct program in which a procedure or function body ran (trace tag)",
                trusted=["the per-node resolver cache and reference Variables have no counterpart in the model (names are looked up each time); covered by the correspondence only"])
@@ -312,4 +333,6 @@ def build(P):
                     "a random top-level position (must give exactly one pedantic error naming it; nothing printed for lex/parse-time constructs; model gives the prefix output "
                     "for run-time ones); non-trivial = distinct (program, option) case")
 
+    global CALL_MATRIX
+    CALL_MATRIX = call_matrix
     return {"C03": C03, "C04": C04, "C20": C20}
